@@ -144,7 +144,7 @@ func (d *Deb) Package(info *nfpm.Info, deb io.Writer) (err error) { // nolint: f
 	}
 
 	if info.Deb.Signature.KeyFile != "" || info.Deb.Signature.SignFn != nil {
-		sig, sigType, err := doSign(info, debianBinary, controlTarGz, dataTarball)
+		sig, sigType, err := doSign(info, debianBinary, controlTarGz, dataTarball, dataTarballName)
 		if err != nil {
 			return err
 		}
@@ -159,22 +159,22 @@ func (d *Deb) Package(info *nfpm.Info, deb io.Writer) (err error) { // nolint: f
 	return nil
 }
 
-func doSign(info *nfpm.Info, debianBinary, controlTarGz, dataTarball []byte) ([]byte, string, error) {
+func doSign(info *nfpm.Info, debianBinary, controlTarGz, dataTarball []byte, dataTarballName string) ([]byte, string, error) {
 	switch info.Deb.Signature.Method {
 	case "dpkg-sig":
-		return dpkgSign(info, debianBinary, controlTarGz, dataTarball)
+		return dpkgSign(info, debianBinary, controlTarGz, dataTarball, dataTarballName)
 	default:
 		return debSign(info, debianBinary, controlTarGz, dataTarball)
 	}
 }
 
-func dpkgSign(info *nfpm.Info, debianBinary, controlTarGz, dataTarball []byte) ([]byte, string, error) {
+func dpkgSign(info *nfpm.Info, debianBinary, controlTarGz, dataTarball []byte, dataTarballName string) ([]byte, string, error) {
 	sigType := "builder"
 	if info.Deb.Signature.Type != "" {
 		sigType = info.Deb.Signature.Type
 	}
 
-	data, err := readDpkgSigData(info, debianBinary, controlTarGz, dataTarball)
+	data, err := readDpkgSigData(info, debianBinary, controlTarGz, dataTarball, dataTarballName)
 	if err != nil {
 		return nil, sigType, &nfpm.ErrSigningFailure{Err: err}
 	}
@@ -261,7 +261,7 @@ func newDpkgSigFileLine(name string, fileContent []byte) dpkgSigFileLine {
 	}
 }
 
-func readDpkgSigData(info *nfpm.Info, debianBinary, controlTarGz, dataTarball []byte) (io.Reader, error) {
+func readDpkgSigData(info *nfpm.Info, debianBinary, controlTarGz, dataTarball []byte, dataTarballName string) (io.Reader, error) {
 	data := dpkgSigData{
 		Signer: info.Deb.Signature.Signer,
 		Date:   modtime.Get(info.MTime),
@@ -269,7 +269,7 @@ func readDpkgSigData(info *nfpm.Info, debianBinary, controlTarGz, dataTarball []
 		Files: []dpkgSigFileLine{
 			newDpkgSigFileLine("debian-binary", debianBinary),
 			newDpkgSigFileLine("control.tar.gz", controlTarGz),
-			newDpkgSigFileLine("data.tar.gz", dataTarball),
+			newDpkgSigFileLine(dataTarballName, dataTarball),
 		},
 	}
 	temp, _ := template.New("dpkg-sig").Funcs(template.FuncMap{
